@@ -36,6 +36,15 @@ Theorem C04_invariant : (forall n, Inv.Inv (Mach.init n)) /\ (forall s t a s', I
                         /\ (forall s t a e, Inv.Inv s -> Mach.step s t a <> Mach.Err e).
 Proof. split; [exact inv_init|]. split; [exact pres|]. intros s t a e H. apply safe. exact H. Qed.
 
+(* the frame every holder can rely on: a write / realloc step exists only for the one and only holder, a free step only
+   when nobody holds a reference — so while a thread holds a handle no other thread changes or releases its buffer *)
+Theorem C04_write_excludes_others : forall s u s', Inv.Inv s -> Mach.step s u AWrite = Mach.Ok s' ->
+  forall t, t <> u -> Mach.refs (Mach.getth s t) = 0%nat.
+Proof. exact write_excludes_others. Qed.
+Theorem C04_free_excludes_holders : forall s u s', Inv.Inv s -> Mach.step s u AFree = Mach.Ok s' ->
+  forall t, Mach.refs (Mach.getth s t) = 0%nat.
+Proof. exact free_excludes_holders. Qed.
+
 (* ---- thread-local side: the modelled functions only perform actions whose protocol precondition holds, whatever
    the shared memory returns: the buffer is written / reallocated only after an acquire load returned 1 while the
    thread held a reference; it is read only while holding one; the reference is given up last; dealloc only by the
@@ -117,6 +126,8 @@ Proof. cbv zeta. split; [apply run_sched_sound|]. vm_compute. auto. Qed.
 Print Assumptions C04_atomic_sites.
 Print Assumptions C04_protocol_safe_all_schedules.
 Print Assumptions C04_invariant.
+Print Assumptions C04_write_excludes_others.
+Print Assumptions C04_free_excludes_holders.
 Print Assumptions C04_clone_respects_protocol.
 Print Assumptions C04_drop_respects_protocol.
 Print Assumptions C04_reserve_respects_protocol.
